@@ -290,6 +290,62 @@ fn arcs(rng: &mut Rng) {
     emit("arc.aabb", &i, &o, &v);
 }
 
+/// "the cached bounding box of EVERY circle and arc": circles and arcs however they were obtained —
+/// direct constructors, three points, a least-squares or RANSAC fit started from a guess elsewhere,
+/// copies, arcs made from such circles
+fn boxes_of_every_constructor(rng: &mut Rng) {
+    use engeom::common::BestFit;
+    let c = Point2::new(rng.range(-6.0, 6.0), rng.range(-6.0, 6.0));
+    let r = rng.range(0.2, 5.0);
+    let on = |a: f64| Point2::new(c.x + r * a.cos(), c.y + r * a.sin());
+    let n = 5 + rng.below(20);
+    let a0 = rng.range(0.0, 2.0 * PI);
+    let span = rng.range(1.5, 2.0 * PI);
+    let pts: Vec<Point2> = (0..n).map(|k| on(a0 + span * k as f64 / n as f64)).collect();
+    let mut circles: Vec<(Circle2, &'static str)> = vec![(Circle2::new(c.x, c.y, r), "new"), (Circle2::from_point(c, r), "from_point")];
+    if let Ok(k) = Circle2::from_3_points(pts[0], pts[n / 2], pts[n - 1]) {
+        circles.push((k, "from_3_points"));
+    }
+    // a guess that is NOT the answer (centre and radius both off)
+    let guess = Circle2::new(c.x + rng.range(-0.4, 0.4) * r, c.y + rng.range(-0.4, 0.4) * r, r * rng.range(0.6, 1.5));
+    if let Ok(Ok(k)) = guarded(|| Circle2::fitting_circle(&pts, &guess, BestFit::All)) {
+        circles.push((k, "fitting_circle(All)"));
+    }
+    if let Ok(Ok(k)) = guarded(|| Circle2::fitting_circle(&pts, &guess, BestFit::Gaussian(3.0))) {
+        circles.push((k, "fitting_circle(Gaussian)"));
+    }
+    if let Ok(Ok(k)) = guarded(|| Circle2::ransac(&pts, 1e-6 * r, Some(50), None, None)) {
+        circles.push((k, "ransac"));
+    }
+    let extra: Vec<(Circle2, &'static str)> = circles.iter().map(|(k, _)| (k.clone(), "clone")).collect();
+    circles.extend(extra);
+    let mut v = Verdict::new();
+    for (k, how) in &circles {
+        let sc = 1.0 + k.r() + k.center.coords.norm();
+        let b = k.aabb();
+        let ok = (b.mins.x - (k.center.x - k.r())).abs() <= 1e-9 * sc && (b.mins.y - (k.center.y - k.r())).abs() <= 1e-9 * sc
+            && (b.maxs.x - (k.center.x + k.r())).abs() <= 1e-9 * sc && (b.maxs.y - (k.center.y + k.r())).abs() <= 1e-9 * sc;
+        v.require(ok, "circle_aabb.every_circle_has_the_box_centre_plus_minus_radius", || format!("{how}: centre {:?} r {} box {:?} {:?}", k.center, k.r(), b.mins, b.maxs));
+        // arcs made from it
+        let (b0, sw) = (rng.range(-7.0, 7.0), rng.range(0.05, 2.0 * PI) * if rng.chance(0.5) { 1.0 } else { -1.0 });
+        let arcs: Vec<(Arc2, &'static str)> = vec![(k.to_arc(), "to_arc"), (k.to_partial_arc(b0, sw), "to_partial_arc")];
+        for (arc, ahow) in &arcs {
+            let bb = arc.aabb();
+            let m = 600;
+            let (mut lo, mut hi) = (Point2::new(f64::MAX, f64::MAX), Point2::new(f64::MIN, f64::MIN));
+            for j in 0..=m {
+                let q = arc.point_at_fraction(j as f64 / m as f64);
+                lo = Point2::new(lo.x.min(q.x), lo.y.min(q.y));
+                hi = Point2::new(hi.x.max(q.x), hi.y.max(q.y));
+            }
+            let res = k.r() * (2.0 * PI / m as f64).powi(2) + 1e-9 * sc;
+            v.require(lo.x >= bb.mins.x - 1e-9 * sc && lo.y >= bb.mins.y - 1e-9 * sc && hi.x <= bb.maxs.x + 1e-9 * sc && hi.y <= bb.maxs.y + 1e-9 * sc, "arc_aabb.every_arc_inside_its_box", || format!("{how}.{ahow}: box {:?} {:?} vs extent {lo:?} {hi:?}", bb.mins, bb.maxs));
+            v.require((lo.x - bb.mins.x).abs() <= res && (lo.y - bb.mins.y).abs() <= res && (hi.x - bb.maxs.x).abs() <= res && (hi.y - bb.maxs.y).abs() <= res, "arc_aabb.every_arc_touches_its_box", || format!("{how}.{ahow}: box {:?} {:?} vs extent {lo:?} {hi:?}", bb.mins, bb.maxs));
+        }
+    }
+    emit_oracle_only("circle.boxes", &Tok::new(), &Tok::new(), &v);
+}
+
 pub fn run(rng: &mut Rng, n: usize) {
     for _ in 0..n {
         for _ in 0..4 {
@@ -298,5 +354,6 @@ pub fn run(rng: &mut Rng, n: usize) {
             lines(rng);
         }
         arcs(rng);
+        boxes_of_every_constructor(rng);
     }
 }
